@@ -31,6 +31,8 @@ type c09Case struct {
 	Classes []string `json:"classes,omitempty"`
 }
 
+const c09KMixinParam = "C09-mixin-param-typeref-reimport"
+
 var c09Encs = []string{"pb", "pb.json", "textpb"}
 
 func genC09(t *rapid.T) c09Case {
@@ -46,6 +48,7 @@ func genC09(t *rapid.T) c09Case {
 		NoCollectorArr:   knownActive(c09KCollector),
 		NoMixinDisorder:  knownActive(c09KMixin),
 		NoQuoteColonName: knownActive(c09KJSONName),
+		MixinParam:       !knownActive(c09KMixinParam),
 	}
 	tm := c09GenTmpl(t, o)
 	for _, id := range tm.Excluded {
@@ -302,6 +305,8 @@ func checkC09(x *X, c c09Case) error {
 				e := fmt.Errorf("%s: `import x.%s` compiles to other applications: %s\n---- %s", k, enc, msg, label)
 				if sig := c09ReimportSig(m, sh, apps); sig != "" {
 					e = finding(sig, "%v", e)
+				} else if c09OnlyMixinParamScope(m, m3, apps) {
+					e = finding(c09SigMixinParam, "%v", e)
 				}
 				fail(e)
 			}
@@ -347,6 +352,35 @@ func c09Pick(errs []error) error {
 
 // c09ReimportSig classifies a re-import difference: a signature is returned only when every
 // differing application has the shape of a listed defect.
+const c09SigMixinParam = "reimport:param-typed-by-mixed-in-type-scoped-differently"
+
+// c09OnlyMixinParamScope: the differing applications all use mixins, and they differ only in the
+// split of a parameter's reference 'T.f' into application part and path: fixParamTypeRef runs
+// before the mixin's types are copied on the first compile, but after they exist on re-import.
+func c09OnlyMixinParamScope(m, m3 *sysl.Module, apps []string) bool {
+	a := proto.Clone(m).(*sysl.Module)
+	b := proto.Clone(m3).(*sysl.Module)
+	for _, n := range apps {
+		if a.Apps[n] == nil || b.Apps[n] == nil || len(a.Apps[n].Mixin2) == 0 {
+			return false
+		}
+		for _, mod := range []*sysl.Module{a, b} {
+			for _, ep := range mod.Apps[n].Endpoints {
+				for _, p := range ep.Param {
+					if r := p.GetType().GetTypeRef().GetRef(); r != nil {
+						// 'T1.id' is read as application T1 + path [id] on the first compile and as
+						// path [T1 id] on re-import: compare the spelled reference
+						r.Path = append(append([]string{}, r.GetAppname().GetPart()...), r.Path...)
+						r.Appname = nil
+					}
+				}
+			}
+		}
+	}
+	rest, _ := c09AppsDiff(a, b)
+	return len(rest) == 0
+}
+
 func c09ReimportSig(m *sysl.Module, sh c09Shape, apps []string) string {
 	allCollector, allMixin := true, true
 	dis := map[string]bool{}
